@@ -357,12 +357,48 @@ class Interp(object):
     s_Global = s_Import
 
     def s_Delete(self, st, node):
+        states = [st]
+        res = []
         for t in node.targets:
             if isinstance(t, ast.Name):
-                st.frames[-1].pop(t.id, None)
+                for s in states:
+                    s.frames[-1].pop(t.id, None)
+            elif isinstance(t, ast.Subscript) and not isinstance(t.slice, ast.Slice):
+                nxt = []
+                for s in states:
+                    for (s1, k1, base) in self.eval(s, t.value):
+                        if k1 != "val":
+                            res.append((s1, k1, base))
+                            continue
+                        for (s2, k2, idx) in self.eval(s1, t.slice):
+                            if k2 != "val":
+                                res.append((s2, k2, idx))
+                                continue
+                            o = s2.obj(base) if isinstance(base, Ref) else None
+                            if o is not None and o.kind == "list" and o.items is not None and isinstance(idx, int) and not isinstance(idx, bool):
+                                if -len(o.items) <= idx < len(o.items):
+                                    w = s2.wobj(base)
+                                    w.items = list(w.items)
+                                    del w.items[idx]
+                                    self.emit(s2, ("mutate", base.oid, s2.obj(base).label, "del"))
+                                    nxt.append(s2)
+                                else:
+                                    res.extend(self.raise_exc(s2, "IndexError", node, "index", "del list[%r]" % idx))
+                            elif o is not None and o.kind == "dict" and o.items is not None and isinstance(idx, (str, int)):
+                                keys = [k for k, _ in o.items]
+                                if idx in keys:
+                                    w = s2.wobj(base)
+                                    w.items = [(k, v) for (k, v) in w.items if k != idx]
+                                    self.emit(s2, ("mutate", base.oid, s2.obj(base).label, "del"))
+                                    nxt.append(s2)
+                                else:
+                                    res.extend(self.raise_exc(s2, "KeyError", node, "key", "del dict[%r]" % (idx,)))
+                            else:
+                                raise Unsupported("del %s at %s" % (unparse(t), self.loc(node)))
+                states = nxt
             else:
                 raise Unsupported("del %s" % unparse(t))
-        return [(st, "next", None)]
+        return res + [(s, "next", None) for s in states]
 
     def s_Assign(self, st, node):
         res = []
